@@ -957,7 +957,7 @@ int main(int argc, char **argv) {
       gen_readpass);
   subs.push_back({"getopt",
                   "GETOPT loops over two compiled-in tables (tests/getopt's without GETOPT_MISSING_ARG; a larger one with options that are prefixes of each other, with "
-                  "GETOPT_MISSING_ARG): argv of 1..9 exact-size strings (argv[argc] == NULL) built from every documented form (-a, -abc, -cARG, -c ARG, --x=ARG, --x "
+                  "GETOPT_MISSING_ARG): argv of 1..9 exact-size strings (argv[argc] == NULL in half of the vectors, no slot behind the last word in the other half) built from every documented form (-a, -abc, -cARG, -c ARG, --x=ARG, --x "
                   "ARG, missing/unwanted arguments, --, -, unknown options), then cut/mutated strings, 1023/1024-byte arguments; 1 case in 7 runs every prefix of the "
                   "vector and of each string. getopt state reset through optreset. Oracle: ASan clean, loop ends within sum(strlen)+2*argc+8 iterations, optarg of an "
                   "argument-taking option is non-NULL and points into an argv string, final optind in [1,argc]. Non-trivial: >= 2 strings, at most half of them "
